@@ -5,7 +5,7 @@ quick checks; any exit code other than 0 is a false alarm (1) or a robustness pr
 Confirmed-silent patches are stored under /verif/seeded/benign-<tag>-nK/."""
 import glob, json, os, re, shutil, subprocess, sys
 src = sys.argv[1].rstrip('/')
-tag = os.path.basename(src).replace('seed4_', '').replace('seed5_', '').replace('seed6_', '').replace('seed9_', '')
+tag = os.path.basename(src).replace('seed4_', '').replace('seed5_', '').replace('seed6_', '').replace('seed9_', '').replace('seed13_', '').replace('N9b', 'N9')
 SB = os.environ.get('SB_DIR', '/tmp/sb')
 PROPS = [f"C{i:02d}" for i in range(1, 20)]
 def sh(cmd, timeout=7200):
